@@ -629,6 +629,13 @@ class Scripts:
                 self.emit('set_opmod 3 0x80')
                 fl = r.choice([0x08, 0x08, 0x08, 0x0a, 0x88, 0x00, 0x02])
                 self.emit('env loraflags %d' % fl)
+                if fl == 0x08 and r.random() < 0.3:
+                    # the acknowledgement of the handler fails once; the event is handled by the next invocation - once
+                    self.emit('irq !1=%d' % r.choice([1, 0x101]))
+                    self.emit('irq')
+                    self.emit('irq')
+                    self.emit('#= txonce')
+                    continue
                 self.emit('irq')
                 self.emit('#= txdone %d' % fl)
                 self.emit('irq')
@@ -678,7 +685,8 @@ class Scripts:
             for _ in range(r.randint(1, 5)):
                 hops = r.choice([0, 1, 2, ln - 1, ln, ln + 1, r.randint(0, min(2 * ln + 2, 300))])
                 for _ in range(hops):
-                    self.emit('env loraflags 2')
+                    # the channel-change flag, now and then together with a flag that is not the end of a packet
+                    self.emit('env loraflags %d' % r.choice([2, 2, 2, 0x12, 0x82]))
                     self.emit('irq')
                     self.emit('#= hop')
                 if r.random() < 0.3:
